@@ -403,3 +403,13 @@ package fzf
 //@   invariant mergerValid(t.merger) && t.merger != nil && t.merger == old(t.merger) && (len(matches) <= t.merger.count - params.offset || len(matches) == 0) && fresh(matches)
 //@   invariant (t.merger.merged.arr == old(t.merger.merged.arr) && t.merger.merged.off == old(t.merger.merged.off) && cap(t.merger.merged) == old(cap(t.merger.merged)) && len(t.merger.merged) >= old(len(t.merger.merged))) || fresh(t.merger.merged)
 //@   invariant t.merger.cursors == old(t.merger.cursors)
+
+//@ func listenAddress.IsLocal
+//@ property C16
+//@ ensures result == (addr.host == "localhost" || addr.host == "127.0.0.1")
+
+// A listener on a non-local address is never opened without an API key.
+//@ func startHttpServer
+//@ property C16
+//@ assert @"net.Listen(" (address.host == "localhost" || address.host == "127.0.0.1") || len(apiKey) > 0
+//@ cut @"go func()" the accept loop runs in its own goroutine (outside the verified subset)
